@@ -47,6 +47,7 @@ type AccountSpec struct {
 	Password    string   `json:"pw"`
 	Unconfirmed bool     `json:"unconf,omitempty"`
 	Locked      bool     `json:"locked,omitempty"`
+	HashKind    string   `json:"hash_kind,omitempty"` // "", or a stored password no bcrypt can read: "empty", "md5", "sha256crypt", "trunc"
 	OTPs        int      `json:"otps,omitempty"`
 	TOTP        bool     `json:"totp,omitempty"`
 	Phone       string   `json:"phone,omitempty"`
@@ -87,6 +88,8 @@ type Config struct {
 	HTTPS           bool     `json:"https,omitempty"`
 	Providers       []string `json:"providers,omitempty"`
 	LegacyRedirect  bool     `json:"legacy_redirect,omitempty"`  // Modules.RoutesRedirectOnUnauthed=true instead of ResponseOnUnauthed (module routes only)
+	ExtraRulePages  []string `json:"extra_rule_pages,omitempty"` // the application appends a validation rule of its own (for a field nobody is required to send) to these pages' rulesets
+	UpstreamLookup  int      `json:"upstream_lookup,omitempty"`  // an application middleware in front of expire/remember that looks the user up (request log, data injector): 1 CurrentUser, 2 LoadCurrentUser
 	MiddlewareEarly bool     `json:"middleware_early,omitempty"` // expire/remember Middleware(ab) constructed before the instance is configured, applied afterwards
 	NilEmptyState   bool     `json:"nil_empty_state,omitempty"`  // the session store answers (nil, nil) for a browser without session values (LoadClientState supports that)
 	SetupsFirst     bool     `json:"setups_first,omitempty"`     // the 2FA / expire Setup() calls run before ab.Init()
@@ -413,6 +416,9 @@ func NewWorld(cfg Config) (w *World, err error) {
 	if len(cfg.RegWhitelist) > 0 {
 		br.Whitelist["register"] = append(br.Whitelist["register"], cfg.RegWhitelist...)
 	}
+	for _, page := range cfg.ExtraRulePages {
+		br.Rulesets[page] = append(br.Rulesets[page], defaults.Rules{FieldName: "app_note", MaxLength: 500})
+	}
 	ab.Config.Core.BodyReader = otpAdapter{br}
 	ab.Config.Core.Hasher = FaultHasher{Inner: authboss.NewBCryptHasher(bcrypt.MinCost), B: w.B}
 
@@ -567,6 +573,16 @@ func (w *World) seedAccounts() {
 		if u.Email == "" {
 			u.Email = a.PID
 		}
+		switch a.HashKind {
+		case "empty": // created through OAuth2 / invited: no password at all
+			u.Password = ""
+		case "md5": // imported with a legacy hash
+			u.Password = "5f4dcc3b5aa765d61d8327deb882cf99"
+		case "sha256crypt":
+			u.Password = "$5$rounds=5000$saltsalt$5B8vYYiY.CVt1RlTTf8KbXBH3hsxY/GNooZaBBGWEc5"
+		case "trunc":
+			u.Password = u.Password[:20]
+		}
 		var sd Seeded
 		if a.Locked {
 			u.Locked = time.Now().UTC().Add(w.AB.Config.Modules.LockDuration)
@@ -680,6 +696,31 @@ func (w *World) buildHandler() {
 		} else {
 			app = expire.Middleware(ab)(app)
 		}
+	}
+	if lk := w.Cfg.UpstreamLookup; lk != 0 {
+		next := app
+		app = http.HandlerFunc(func(rw http.ResponseWriter, r *http.Request) {
+			var err error
+			if lk == 1 {
+				_, err = ab.CurrentUser(r)
+			} else {
+				_, err = ab.LoadCurrentUser(&r)
+			}
+			if err != nil && err != authboss.ErrUserNotFound {
+				// the application answers its own failures the way it answers the library's
+				if rc, _ := r.Context().Value(ctxProbe).(*Record); rc != nil {
+					rc.HandlerErr = err
+				}
+				ab.Config.Core.Logger.Error(fmt.Sprintf("request error from (%s) %s: %+v", r.RemoteAddr, r.URL.EscapedPath(), err))
+				if w.Cfg.Err500 {
+					rw.Header().Set("Content-Type", "application/json")
+					rw.WriteHeader(http.StatusInternalServerError)
+					_, _ = io.WriteString(rw, `{"status":"failure","error":"internal error"}`)
+				}
+				return
+			}
+			next.ServeHTTP(rw, r)
+		})
 	}
 	inner := app
 	counted := http.HandlerFunc(func(rw http.ResponseWriter, r *http.Request) {
